@@ -54,6 +54,13 @@ func twoRuns(lens []int, parity int, permute func([]string) []string, gA, gB int
 	b := run(permute(append([]string(nil), paths...)), gB)
 	rt.MapOrderDefault()
 	sameWrites(a, b, "two Create runs")
+	if adversarialMaps && !rt.IsSymbolic() {
+		// natively the map order cannot be chosen: repeat the run so that a
+		// dependence on it shows up with overwhelming probability
+		for i := 0; i < 24; i++ {
+			sameWrites(a, run(paths, gB), "two Create runs")
+		}
+	}
 }
 
 func VerifHarness_C17_order_goroutines() {
